@@ -3,6 +3,7 @@ package lakeh
 import (
 	"encoding/hex"
 	"fmt"
+	"sort"
 	"strconv"
 	"strings"
 )
@@ -222,8 +223,17 @@ func sortObjs(os []ObjObs) {
 
 // CompareStep returns a description of the first difference between the real and the
 // model observation of one step ("" = agree).  Scans are compared with equal-key runs
-// canonicalised.
-func CompareStep(t *Table, real, model *StepObs, commits bool) string {
+// canonicalised.  On a branch with the empty-bytes lister hazard (known finding
+// lister-order:empty-bytes-key: the real order of the objects follows Go map iteration and
+// the scan may be out of order) the scans are compared as multisets only; hazardBefore says
+// that some branch had the hazard at this or an earlier step (commit scans).
+func CompareStep(t *Table, cfg Cfg, real, model *StepObs, commits, hazardBefore bool) string {
+	sameScan := func(hazard bool, a, b []int) bool {
+		if hazard {
+			return EqInts(sortedInts(a), sortedInts(b))
+		}
+		return EqInts(t.CanonTies(a), t.CanonTies(b))
+	}
 	rr, mr := real.Res, model.Res
 	if strings.HasPrefix(rr, "other:") {
 		rr = "other"
@@ -254,7 +264,7 @@ func CompareStep(t *Table, real, model *StepObs, commits bool) string {
 				return fmt.Sprintf("branch b%d object: real %+v, model %+v", rb.Name, ro, mo)
 			}
 		}
-		if rb.Status == "ok" && !EqInts(t.CanonTies(rb.Scan), t.CanonTies(mb.Scan)) {
+		if rb.Status == "ok" && !sameScan(emptyBytesHazard(cfg, &rb), rb.Scan, mb.Scan) {
 			return fmt.Sprintf("branch b%d scan: real %v, model %v", rb.Name, rb.Scan, mb.Scan)
 		}
 	}
@@ -267,12 +277,18 @@ func CompareStep(t *Table, real, model *StepObs, commits bool) string {
 			if rc.Status != mc.Status {
 				return fmt.Sprintf("commit c%d status: real %s, model %s", rc.ID, rc.Status, mc.Status)
 			}
-			if rc.Status == "ok" && !EqInts(t.CanonTies(rc.Scan), t.CanonTies(mc.Scan)) {
+			if rc.Status == "ok" && !sameScan(hazardBefore, rc.Scan, mc.Scan) {
 				return fmt.Sprintf("commit c%d scan: real %v, model %v", rc.ID, rc.Scan, mc.Scan)
 			}
 		}
 	}
 	return ""
+}
+
+func sortedInts(a []int) []int {
+	out := append([]int(nil), a...)
+	sort.Ints(out)
+	return out
 }
 
 func objIDs(os []ObjObs) []int {
